@@ -824,9 +824,24 @@ namespace
         std::map<long, std::shared_ptr<void>>    feedbacks; // node id -> feedback handle
     };
 
+    // the environments of the compose bodies currently being interpreted, innermost last: a sub-graph body may
+    // reference a port of an enclosing wiring ("o:<id>", a captured outer port) instead of receiving it as an argument
+    thread_local std::vector<Env *> g_envs;
+
     P resolve(Env &env, const std::string &ref)
     {
         if (ref.rfind("p:", 0) == 0) { return passive(resolve(env, ref.substr(2))); }   // this usage does not activate the consumer
+        if (ref.rfind("o:", 0) == 0)
+        {
+            const long id = std::stol(ref.substr(2));
+            for (auto it = g_envs.rbegin(); it != g_envs.rend(); ++it)
+            {
+                if (*it == &env) { continue; }
+                auto f = (*it)->ports.find(id);
+                if (f != (*it)->ports.end()) { return f->second; }
+            }
+            throw std::logic_error("hgv: unresolved outer port ref " + ref);
+        }
         if (ref == "key") { return *env.key; }
         if (!ref.empty() && ref[0] == 'a') { return env.args.at(std::stoul(ref.substr(1))); }
         auto it = env.ports.find(std::stol(ref));
@@ -930,6 +945,8 @@ namespace
     std::optional<P> interpret(Env &env, const GraphSpec &g)
     {
         Wiring &w = env.w;
+        g_envs.push_back(&env);
+        struct PopEnv { ~PopEnv() { g_envs.pop_back(); } } pop_env;
         for (const auto &text : g.stmts)
         {
             Line l = parse_line(text);
